@@ -68,6 +68,17 @@ def gen_cases(rng, n, kinds):
             tot = cum[-1] - cum[si]
             svals = [rng.uniform(-cum[si], tot) for _ in range(5)] + [cum[rng.randrange(nf)] - cum[si], -cum[si] - rng.uniform(0.01, 0.2), tot + rng.uniform(0.01, 0.2), 0.0]
             cases.append(dict(kind=kind, pos=[[hx(a), hx(b)] for a, b in pos], si=si, s=[hx(v) for v in svals]))
+        elif kind == "equalise":
+            # at most 8 points: numpy.mean of fewer than 8 spacings runs from the left (what the model states)
+            nfine = rng.choice([3, 4, 5, 6])
+            el = rng.choice([0, 0, 1, 2])
+            eu = rng.choice([0, 0, 1, 2])
+            while nfine + el + eu > 8:
+                el, eu = max(0, el - 1), max(0, eu - 1)
+            pc = fine_curve(rng, nfine + el + eu)
+            atol = rng.choice([1e-3, 1e-6, 1e-9, 1e-12, 1e-16])
+            maxits = rng.choice([1, 2, 5, 9, 12, 30])
+            cases.append(dict(kind=kind, pos=[[hx(a), hx(b)] for a, b in pc], nfine=nfine, el=el, atol=hx(atol), maxits=maxits, damping=hx(rng.choice([0.8, 0.5, 1.0]))))
         elif kind == "sperp":
             si = rng.randrange(0, nf)
             ei = rng.randrange(si, nf)
@@ -127,7 +138,7 @@ def gen_cases(rng, n, kinds):
     return cases
 
 
-HEADER = ("From Coq Require Import ZArith List Bool PrimFloat.\nFrom HT Require Import Field Model_Quadrature Model_Sperp.\nImport ListNotations.\n"
+HEADER = ("From Coq Require Import ZArith List Bool PrimFloat.\nFrom HT Require Import Field Model_Quadrature Model_Sperp Model_Equalise.\nImport ListNotations.\n"
           "Local Open Scope float_scope.\n"
           "Fixpoint leq (a b : list float) : bool := match a, b with [], [] => true | x :: s, y :: t => PrimFloat.eqb x y && leq s t | _, _ => false end.\n"
           "Fixpoint lleq (a b : list (list float)) : bool := match a, b with [], [] => true | x :: s, y :: t => leq x y && lleq s t | _, _ => false end.\n"
@@ -141,6 +152,9 @@ HEADER = ("From Coq Require Import ZArith List Bool PrimFloat.\nFrom HT Require 
           "Definition k_sperp (pos : list (float * float)) (si ei : nat) (vec : float * float) (xs sp : list float) (tot : float) (vals : list float) : bool :=\n"
           "  let m := s_perp Fops pos si vec in\n"
           "  leq m sp && PrimFloat.eqb (s_perp_total Fops m si ei) tot && leq (map (s_of_sperp Fops m (calc_distance Fops pos) si) xs) vals.\n"
+          "Definition k_equalise (pos : list (float * float)) (atol damping : float) (maxits nfine el : nat) (res : list (float * float)) (warned : bool) : bool :=\n"
+          "  let r := equalise Fops (fun p => p) atol damping maxits nfine el el (nfine - 1 + el) pos in\n"
+          "  leq (map fst (fst r)) (map fst res) && leq (map snd (fst r)) (map snd res) && Bool.eqb (snd r) warned.\n"
           "Fixpoint ys4 (A : list float) (pos : list (float * float)) (B C : list float) : list float :=\n"
           "  match A, pos, B, C with a :: A', p :: pos', b :: B', c :: C' => integrand Fops a (fst p) b c :: ys4 A' pos' B' C' | _, _, _, _ => [] end.\n"
           "Definition mkseg (pos pts : list (float * float)) (si : nat) (A B C : list float) : @seg float :=\n"
@@ -265,6 +279,21 @@ def correspondence(chk, n, kinds, tag):
         elif c["kind"] == "interp":
             impl_interp_props(chk, c, r)
             items.append(f"k_interp {_pl(c['pos'])} {c['si']}%nat {_fl(c['s'])} {_pl([p[:2] for p in r['points']])} {_fl([p[2] for p in r['points']])}")
+        elif c["kind"] == "equalise":
+            pos0 = [(float.fromhex(a), float.fromhex(b)) for a, b in c["pos"]]
+            got = [(float.fromhex(a), float.fromhex(b)) for a, b in r["positions"]]
+            si_, ei_ = c["el"], c["nfine"] - 1 + c["el"]
+            if got[si_] != pos0[si_] or got[ei_] != pos0[ei_]:
+                chk.fail("equalise:end-points-moved", "FineContour.equaliseSpacing moved the point at startInd or endInd", {"case": c, "got": r["positions"]})
+            dd = [float.fromhex(v) for v in r["distance"]]
+            ds = [b - a for a, b in zip(dd[:-1], dd[1:])]
+            err = max(abs(x - sum(ds) / len(ds)) for x in ds)
+            if not r["warned"] and err > float.fromhex(c["atol"]) * (1 + 1e-9) + 1e-18:
+                chk.fail("equalise:accepted-unequal-spacing", "FineContour.equaliseSpacing stopped without a warning although the spacing differs by more than finecontour_atol", {"case": c, "ds_error": err})
+            if r["refine_calls"] > c["maxits"] + 1:
+                chk.fail("equalise:too-many-rounds", "FineContour.equaliseSpacing ran more rounds than finecontour_maxits allows", {"case": c, "refine_calls": r["refine_calls"]})
+            stats["equalise:warned" if r["warned"] else "equalise:converged"] = stats.get("equalise:warned" if r["warned"] else "equalise:converged", 0) + 1
+            items.append(f"k_equalise {_pl(c['pos'])} {common.fhex(float.fromhex(c['atol']))} {common.fhex(float.fromhex(c['damping']))} {c['maxits']}%nat {c['nfine']}%nat {c['el']}%nat {_pl(r['positions'])} {'true' if r['warned'] else 'false'}")
         elif c["kind"] == "sperp":
             sp = [float.fromhex(v) for v in r["s_perp"]]
             pp = [(float.fromhex(a), float.fromhex(b)) for a, b in c["pos"]]
